@@ -361,10 +361,38 @@ def generate(rng, tier):
             op = {"op": "poison", "kind": rng.choice(["list_samples", "int_fracshift", "bad_Q", "uint8_samples", "uint8_samples",
                                                      "f32_Q", "cube_everywhere", "cube_everywhere"]),
                   "g": g, "seed": rng.getrandbits(32)}
+        if op.get("arr") in arrays and arrays[op["arr"]].get("kind") == "derived" and kind in ("ffs", "focus"):
+            op["wf"] = True                      # arrays made by Wavefront.pad2d/crop live inside their Wavefront
         ops.append(op)
         if kind in JUDGED:
             last_judged = op
             judged_so_far.append(op)
+        if cfg["alias"] and kind in ("ffs", "focus") and op.get("wf") and rng.random() < 0.25:
+            # the user pads or crops the long-lived Wavefront in place, then keeps propagating it
+            src = arrays[op["arr"]]
+            sm, sn = spec_shape(src)
+            if rng.random() < 0.6:
+                eq = rng.choice([2, 2, 1.5, 3])
+                new_shape = [math.ceil(sm * eq), math.ceil(sn * eq)]
+                ed = {"op": "wf_edit", "arr": op["arr"], "how": "pad", "Q": eq}
+            else:
+                new_shape = [max(1, sm - rng.randint(0, 2)), max(1, sn - rng.randint(0, 2))]
+                ed = {"op": "wf_edit", "arr": op["arr"], "how": "crop", "shape": new_shape}
+            if max(new_shape) <= 40:
+                newname = f"a{len(arrays)}"
+                arrays[newname] = {"kind": "derived", "shape": new_shape, "seed": 0, "wvl": src["wvl"],
+                                   "dxp": src["dxp"], "dxf": src["dxf"]}
+                ed.update({"new": newname, "wvl": op["wvl"], "dx": op["dx"]})
+                ops.append(ed)
+                # and uses the result right away
+                m2 = new_shape[0]
+                if new_shape[0] == new_shape[1] or rng.random() < 0.5:
+                    q2 = _rq(rng)
+                    z2 = rng.uniform(10, 500)
+                    odx2 = op["wvl"] * z2 / (m2 * op["dx"]) / float(q2)
+                    ops.append({"op": "ffs", "arr": newname, "dx": op["dx"], "z": z2, "wvl": op["wvl"], "odx": odx2,
+                                "out": rng.randint(1, 12), "shift": [0.0, 0.0], "method": rng.choice(["mdft", "czt"]),
+                                "wf": True, "shift_arr": False})
     return {"prop": PROP, "tier": tier, "config": cfg, "arrays": arrays, "ops": ops}
 
 
@@ -482,7 +510,31 @@ def execute(plan):
         ev = {"i": i, "op": kind}
         before = _cache_keys(ft)
         try:
-            if kind == "edit":
+            if kind == "wf_edit":
+                name = op["arr"]
+                if user["alias"] and arrays[name].dtype.kind in "fc":
+                    if name not in user["live"]:
+                        user["live"][name] = arrays[name].copy()
+                    a_live = user["live"][name]
+                    w = _wavefront(pr, user, True, {"arr": name, "wvl": op["wvl"], "dx": op["dx"]}, a_live, "pupil")
+                    if op["how"] == "pad":
+                        w.pad2d(op["Q"])                     # in place: the Wavefront now holds the padded field
+                    else:
+                        w.crop(tuple(op["shape"]))
+                        # crop returns a view of the old field; the user detaches it so that later edits of
+                        # the old array do not show through (keeps the model's arrays independent)
+                        w.data = np.array(w.data, copy=True)
+                    newdata = w.data
+                    new = op["new"]
+                    arrays[new] = np.array(newdata, copy=True)
+                    user["live"][new] = newdata
+                    for kk in [kk for kk in user["wf"] if kk[0] == name]:
+                        del user["wf"][kk]
+                    user["wf"][(new, "pupil", op["wvl"], op["dx"])] = w
+                    bump(faults, "wavefront_padded_or_cropped_in_place")
+                    dirty = True
+                ev["out"] = "ok"
+            elif kind == "edit":
                 name = op["arr"]
                 a0 = arrays[name]
                 if name not in user["live"]:
